@@ -4,6 +4,7 @@
 // points reduce_add / reduce_subtract / ... / sum / prod / amax / amin; accumulate (cumsum / cumprod /
 // accumulate_subtract).
 //   reduce S:<op> S:<api> S:<axiskind> S:<kd> S:<arraykind> A:<arr> <axis: N | I:k | L:..> <init: N | I:v>
+// axiskind: none | int | vec (std::vector<int>) | arr (std::array<int,N>) | ct (tuple of meta::ct, fixed table) | cti (meta::ct)
 //   accum  S:<op> S:<arraykind> A:<arr> I:<axis>
 // kd: def (argument absent) | rt0 | rt1 (run-time bool: the either<> path) | ct0 | ct1 (False / True)
 // arraykind: dyn (std::vector shape: run-time loops) | fix (std::array shape: the template_for arms)
@@ -68,10 +69,10 @@ static std::string with_init(const Arg& init, const std::string& kd, F&& f, cons
     return with_kd(kd, f, a, ax, (ll)init.val);
 }
 // axis argument: None | int | std::vector<int> | std::array<int,N>
-template <bool single_only, size_t MAXN, typename F, typename arr_t>
+template <bool single_only, size_t MAXN, bool CT = false, typename F, typename arr_t>
 static std::string with_axis(const std::string& akind, const Arg& ax, const Arg& init, const std::string& kd, F&& f, const arr_t& a) {
     if (ax.kind == 'N') { if constexpr (single_only) return "unsupported"; else return with_init(init, kd, f, a, None); }
-    if (ax.kind == 'I') return with_init(init, kd, f, a, (int)ax.val);
+    if (ax.kind == 'I' && akind != "cti") return with_init(init, kd, f, a, (int)ax.val);
     if constexpr (single_only) return "unsupported";
     else {
         if (akind == "vec") return with_init(init, kd, f, a, vec_of<int>(ax.list));
@@ -85,6 +86,24 @@ static std::string with_axis(const std::string& akind, const Arg& ax, const Arg&
             }
         }
 #endif
+#ifndef VD_LIGHT
+        // compile-time axes (meta::ct / tuple of ct): a fixed table, reached with run-time-rank arrays only
+        if constexpr (CT) if (akind == "ct") {
+            const auto& l = ax.list;
+            auto is = [&](std::initializer_list<ll> w) { return std::vector<ll>(w) == l; };
+            using meta::ct_v;
+            if (is({0})) return with_init(init, kd, f, a, nmtools_tuple{ct_v<0>});
+            if (is({-1})) return with_init(init, kd, f, a, nmtools_tuple{ct_v<-1>});
+            if (is({0, 1})) return with_init(init, kd, f, a, nmtools_tuple{ct_v<0>, ct_v<1>});
+            if (is({-1, 0})) return with_init(init, kd, f, a, nmtools_tuple{ct_v<-1>, ct_v<0>});
+            if (is({2, 0})) return with_init(init, kd, f, a, nmtools_tuple{ct_v<2>, ct_v<0>});
+            if (is({1, -3, 2})) return with_init(init, kd, f, a, nmtools_tuple{ct_v<1>, ct_v<-3>, ct_v<2>});
+        }
+        if constexpr (CT) if (akind == "cti") {
+            if (ax.val == 1) return with_init(init, kd, f, a, meta::ct_v<1>);
+            if (ax.val == -2) return with_init(init, kd, f, a, meta::ct_v<-2>);
+        }
+#endif
         return "unsupported";
     }
 }
@@ -95,9 +114,11 @@ static std::string reduce_case(const Case& c, const arr_t& a) {
     const Arg& ax = c.args[6]; const Arg& init = c.args[7];
     if (api == "reduce") {
         auto run = [&](auto o) { return with_axis<false, MAXN>(akind, ax, init, kd, [o](const auto&... x) { return view::reduce(o, x...); }, a); };
-        if (op == "add") return run(view::add_t<>{});
+        // compile-time axis constants: add and lin only, run-time-rank arrays only (instantiation count)
+        auto run_ct = [&](auto o) { return with_axis<false, MAXN, (MAXN == 4)>(akind, ax, init, kd, [o](const auto&... x) { return view::reduce(o, x...); }, a); };
+        if (op == "add") return run_ct(view::add_t<>{});
         if (op == "subtract") return run(view::subtract_t<>{});
-        if (op == "lin") return run(lin_t{});
+        if (op == "lin") return run_ct(lin_t{});
         if constexpr (full) {
             if (op == "multiply") return run(view::multiply_t<>{});
             if (op == "maximum") return run(view::maximum_t<>{});
